@@ -18,16 +18,97 @@ BLOCK_LEVEL = {'BlockBox', 'BlockReplacedBox', 'TableBox', 'InlineTableBox', 'Ta
                'FlexBox', 'GridBox', 'BlockLevelBox'}
 TABLE_PARTS = {'TableRowGroupBox', 'TableRowBox', 'TableCellBox'}
 REPLACED = {'ReplacedBox', 'BlockReplacedBox', 'InlineReplacedBox'}
-# context roots whose own decoration the unchanged code drops (known findings)
-LOSES_OWN = {'GridBox', 'InlineGridBox', 'GridContainerBox', 'TableBox', 'InlineTableBox', 'TableRowGroupBox',
-             'TableRowBox', 'TableColumnGroupBox', 'TableColumnBox', 'LineBox'}
+# context roots whose own decoration the unchanged code drops (known finding context-root-loses-decoration;
+# grid containers were repaired by a9887a3 and are compared in full again)
+LOSES_OWN = {'TableBox', 'InlineTableBox', 'TableRowGroupBox', 'TableRowBox', 'TableColumnGroupBox',
+             'TableColumnBox', 'LineBox'}
+
+
+# css-transforms-1: "transformable element" excludes non-replaced inline boxes (and table columns / column
+# groups, which are not in the exported tree)
+NOT_TRANSFORMABLE = {'InlineBox'}
+
+
+def spec_bg(value, is_page=False):
+    """Style-level background (S visible colour images) -> what CSS paints for the box itself: a colour code,
+    'transparent' (a background without visible colour: images only, or the page box) or 'none'.
+    `visibility: hidden` paints nothing (CSS 2.1 11.2)."""
+    if not (isinstance(value, list) and value and value[0] == 'S'):
+        return value
+    _, visible, colour, images = value
+    if visible and isinstance(colour, int):
+        return colour
+    if is_page or (visible and images):
+        return 'transparent'
+    return 'none'
+
+
+def spec_matrix(value, kind):
+    """Style-level transform (T border-box origin functions) -> 'none' | 'sing' | rounded x translation of the
+    matrix css-transforms-1 prescribes: about the transform-origin, the functions applied right to left;
+    not on non-transformable boxes."""
+    if not (isinstance(value, list) and value and value[0] == 'T'):
+        return value
+    _, (bbx, bby, bw, bh), (oxv, oxp, oyv, oyp), fns = value
+    if not fns or kind in NOT_TRANSFORMABLE:
+        return 'none'
+    ox = Fraction(bbx) + (Fraction(bw) * Fraction(oxv) / 100 if oxp else Fraction(oxv))
+    oy = Fraction(bby) + (Fraction(bh) * Fraction(oyv) / 100 if oyp else Fraction(oyv))
+
+    def transform(x, y):
+        x, y = x - ox, y - oy
+        for fn in reversed(fns):
+            if fn[0] == 'scale':
+                x, y = x * Fraction(fn[1]), y * Fraction(fn[2])
+            elif fn[0] == 'translate':
+                x = x + (Fraction(bw) * Fraction(fn[1]) / 100 if fn[2] else Fraction(fn[1]))
+                y = y + (Fraction(bh) * Fraction(fn[3]) / 100 if fn[4] else Fraction(fn[3]))
+            else:
+                a, b, c, d, e, f = (Fraction(v) for v in fn[1:])
+                x, y = a * x + c * y + e, b * x + d * y + f
+        return x + ox, y + oy
+
+    e, f = transform(Fraction(0), Fraction(0))
+    ax, ay = transform(Fraction(1), Fraction(0))
+    cx, cy = transform(Fraction(0), Fraction(1))
+    a, b, c, d = ax - e, ay - f, cx - e, cy - f
+    if a * d - b * c == 0:
+        return 'sing'
+    return (e + Fraction(1, 2)).__floor__()
+
+
+def normalise(a):
+    """Style-level forms of an attribute dict -> the values CSS prescribes (in place)."""
+    a['bg'] = spec_bg(a['bg'], a['kind'] == 'PageBox')
+    a['matrix'] = spec_matrix(a['matrix'], a['kind'])
+    a['colGroups'] = [[gid, spec_bg(gbg), [[cid, spec_bg(cbg)] for cid, cbg in cols]]
+                      for gid, gbg, cols in a['colGroups']]
+    return a
+
+
+def propagate_canvas(roots, info):
+    """CSS 2.1 14.2: the canvas background is the root element's; if that is 'transparent' without image and
+    the root is HTML's, the first BODY child's.  The element whose background was propagated paints none
+    itself.  -> canvas ('none' | 'transparent' | colour code); updates the chosen node."""
+    if not roots:
+        return 'none'
+    root_html, flags = info
+    chosen = roots[0]
+    if root_html and chosen.a['bg'] == 'none':
+        for kid, flag in zip(chosen.kids, flags):
+            if flag:
+                chosen = kid
+                break
+    canvas = chosen.a['bg']
+    chosen.a['bg'] = 'none'
+    return canvas
 
 
 class N:
     __slots__ = ('a', 'kids', 'parent', 'unit', 'vid', 'kind')
 
     def __init__(self, attrs, kids, parent):
-        self.a = dict(zip(SLOTS, attrs))
+        self.a = normalise(dict(zip(SLOTS, attrs)))
         self.kids = kids
         self.parent = parent
         self.vid = self.a['id']
@@ -63,9 +144,11 @@ def classify(node, is_page_child):
     return None
 
 
-def expected_items(page_attrs, kids_wire, canvas, exempt=True):
-    """-> (list of (key, string), set of exempt colour codes, findings seen)."""
-    page = dict(zip(SLOTS, page_attrs))
+def expected_items(page_attrs, kids_wire, canvas, exempt=True, info=None):
+    """-> (list of (key, string), set of exempt colour codes, findings seen).
+    `info` = (rootHtml, (isBody …)) with a style-level export: the canvas background is then derived from
+    the styles by CSS 2.1 14.2 (`canvas` is ignored)."""
+    page = normalise(dict(zip(SLOTS, page_attrs)))
     items = []
     exempt_codes = set()
     findings = set()
@@ -105,6 +188,8 @@ def expected_items(page_attrs, kids_wire, canvas, exempt=True):
         return False
 
     roots = [build(k) for k in kids_wire]
+    if info is not None:
+        canvas = propagate_canvas(roots, info)
 
     # unit classification and attachment
     def walk_units(node, real_anc, unit_anc, is_page_child, clip_fakes=False):
@@ -344,11 +429,11 @@ def code_of(event):
     return int(parts[1]) if len(parts) > 1 and parts[1].isdigit() else None
 
 
-def violation(page_attrs, kids_wire, canvas, impl, exempt=True):
+def violation(page_attrs, kids_wire, canvas, impl, exempt=True, info=None):
     """-> (text | None, findings seen).  `impl` is the implementation's display list string."""
     if impl.startswith('err:'):
         return f'painting raised {impl}', set()
-    expected, exempt_codes, findings = expected_items(page_attrs, kids_wire, canvas, exempt)
+    expected, exempt_codes, findings = expected_items(page_attrs, kids_wire, canvas, exempt, info)
     got = impl.split()
     if got == expected:
         return None, findings
@@ -598,6 +683,16 @@ def geometry_violation(page_box, events):
         bg = getattr(page_box, attr, None)
         if bg is not None and bg.color.alpha > 0:
             page_codes.add(str(color_code(bg.color)))
+    # the canvas background covers the page box's border box (css-page-3 "page backgrounds and painting order");
+    # the page's own background covers the bleed area
+    canvas_code = page_rect = None
+    canvas = getattr(page_box, 'canvas_background', None)
+    if canvas is not None and canvas.color.alpha > 0:
+        canvas_code = str(color_code(canvas.color))
+        area = spec_rounded(page_box, (0, 0, 0, 0))
+        page_rect = f're({show_dec(area[0])},{show_dec(area[1])},{show_dec(area[2])},{show_dec(area[3])})'
+    own = getattr(page_box, 'background', None)
+    own_code = str(color_code(own.color)) if own is not None and own.color.alpha > 0 else None
     for token in events:
         kind, color, alphas, transforms, clips, geom = token.split(':', 5)
         clips = clips.split('|') if clips else []
@@ -609,6 +704,11 @@ def geometry_violation(page_box, events):
                 return (f'text of colour {color} is shown at {geom} with clip stack {clips}; the text boxes of that '
                         f'colour have baseline origin / font size {[c[2] for c in cands][:3]} (box {vid} {text!r}) '
                         f'inside the overflow clips {anc}')
+            continue
+        if color == canvas_code and color != own_code and not want_bg.get(color):
+            if not (close(geom, page_rect) and clips and close(clips[-1], page_rect)):
+                return (f'canvas background of colour {color} is painted in {geom} inside the clips {clips}; it '
+                        f'covers the border box of the page box: {page_rect}')
             continue
         if color in page_codes:
             continue
@@ -652,11 +752,57 @@ ALL_BRANCHES = [
     'p:border-4', 'p:border-partial', 'p:border-hidden', 'p:outline', 'p:page-background', 'p:canvas-background',
     'p:page-border', 'p:point7-lines', 'p:neg-z', 'p:pos-z', 'p:zero-z']
 POINT2 = {'BlockBox', 'InlineBlockBox', 'ReplacedBox', 'BlockReplacedBox', 'InlineReplacedBox', 'TableCellBox',
-          'TableCaptionBox', 'MarginBox', 'FootnoteAreaBox', 'FlexContainerBox', 'FlexBox', 'InlineFlexBox'}
+          'TableCaptionBox', 'MarginBox', 'FootnoteAreaBox', 'FlexContainerBox', 'FlexBox', 'InlineFlexBox',
+          'GridContainerBox', 'GridBox', 'InlineGridBox'}
 
 
-def branch_tags(page_attrs, kids_wire, canvas):
-    page = dict(zip(SLOTS, page_attrs))
+def laid_out_violation(page_attrs, kids_wire, info, impl):
+    """`impl` = `canvas (id bg matrix) …` read from the real boxes after layout (style-level export).
+    Clauses: every box has the background its style prescribes — except the element whose background was
+    propagated to the canvas, which has none (CSS 2.1 14.2) — and every transformable box with a `transform`
+    has its matrix (css-transforms-1). -> text | None"""
+    if impl.startswith('err:'):
+        return f'layout raised {impl}'
+    roots = [build(k) for k in kids_wire]
+    canvas = propagate_canvas(roots, info)
+    want = [str(canvas)]
+
+    def visit(node):
+        want.append(f'({node.vid} {node.a["bg"]} {node.a["matrix"]})')
+        for gid, gbg, cols in node.a['colGroups']:
+            want.append(f'({gid} {gbg} none)')
+            want.extend(f'({cid} {cbg} none)' for cid, cbg in cols)
+        for kid in node.kids:
+            visit(kid)
+
+    for root in roots:
+        visit(root)
+    got = impl.split(' ')
+    # re-join "(id bg mat)" triples
+    got = [got[0]] + [' '.join(got[i:i + 3]) for i in range(1, len(got), 3)]
+    if got == want:
+        return None
+    if got[0] != want[0]:
+        return (f'canvas background is {got[0]}; CSS 2.1 14.2 (root element, else its BODY child) gives {want[0]}')
+    for g, w in zip(got[1:], want[1:]):
+        if g != w:
+            gid, gbg, gmat = g.strip('()').split(' ')
+            wid, wbg, wmat = w.strip('()').split(' ')
+            if gid != wid:
+                return f'after layout the boxes are {g} where {w} is expected (tree order)'
+            if gbg != wbg:
+                return (f'box {gid} has the background {gbg} after layout; its style and CSS 2.1 14.2 (a background '
+                        f'propagated to the canvas is not painted at its box; canvas = {want[0]}) prescribe {wbg}')
+            return (f'box {gid} has the transformation matrix {gmat} (none | sing | x translation) after layout; its '
+                    f'transform on a transformable box (css-transforms-1) prescribes {wmat}: the transform is not '
+                    'applied to the box and its subtree')
+    return 'laid-out lists differ in length'
+
+
+def branch_tags(page_attrs, kids_wire, canvas, info=None):
+    page = normalise(dict(zip(SLOTS, page_attrs)))
+    if info is not None:
+        canvas = propagate_canvas([build(k) for k in kids_wire], info)
     tags = set()
     if isinstance(page['bg'], int):
         tags.add('p:page-background')
@@ -669,7 +815,7 @@ def branch_tags(page_attrs, kids_wire, canvas):
         if wire[0] == 'P':
             tags.add('d:placeholder')
             return walk(wire[1], is_page_child)
-        a = dict(zip(SLOTS, wire[1]))
+        a = normalise(dict(zip(SLOTS, wire[1])))
         node = N(wire[1], [], None)
         unit = classify(node, is_page_child)
         kind = a['kind']
